@@ -227,16 +227,30 @@ class Worker:
             self.samples.append(smp)
         for f in fails:
             ent = self.failures.setdefault(
-                f.bucket, {"count": 0, "case": f.case or case, "message": f.message})
+                f.bucket, {"count": 0, "case": f.case or case, "message": f.message,
+                           "stratum": getattr(self, "current_stratum", None),
+                           "salt": getattr(self, "current_salt", 0)})
             ent["count"] += 1
         return fails
 
     # -- phases
     def run_random(self, budget):
+        """One Hypothesis run, or one per stratum when the module stratifies its input space
+        (STRATA(tier) + strategy_for(tier, stratum)): every stratum gets the same share."""
+        strata = getattr(self.mod, "STRATA", None)
+        if strata is None:
+            return self._run_random(self.mod.strategy(self.tier), budget, None, 0)
+        names = list(strata(self.tier))
+        share = max(1, -(-budget // len(names)))
+        for i, name in enumerate(names):
+            self._run_random(self.mod.strategy_for(self.tier, name), share, name, i + 1)
+
+    def _run_random(self, strat, budget, stratum, salt):
         import hypothesis
         from hypothesis import HealthCheck, Phase, given, settings
 
-        strat = self.mod.strategy(self.tier)
+        self.current_stratum = stratum
+        self.current_salt = salt
         sett = settings(
             max_examples=budget, database=None, deadline=None,
             derandomize=False, report_multiple_bugs=False,
@@ -246,7 +260,7 @@ class Worker:
         )
         worker = self
 
-        @hypothesis.seed(self.seed * 1000 + self.shard)
+        @hypothesis.seed((self.seed * 1000 + self.shard) * 1000 + salt)
         @settings(sett)
         @given(strat)
         def test(case):
@@ -271,7 +285,12 @@ class Worker:
         import hypothesis
         from hypothesis import HealthCheck, Phase, settings
 
-        strat = self.mod.strategy(self.tier)
+        ent = self.failures.get(bucket, {})
+        stratum, salt = ent.get("stratum"), ent.get("salt", 0)
+        if stratum is not None:
+            strat = self.mod.strategy_for(self.tier, stratum)
+        else:
+            strat = self.mod.strategy(self.tier)
         calls = [0]
         worker = self
 
@@ -290,7 +309,7 @@ class Worker:
         try:
             return hypothesis.find(
                 strat, pred, settings=sett,
-                random=random.Random(self.seed * 1000 + self.shard))
+                random=random.Random((self.seed * 1000 + self.shard) * 1000 + salt))
         except Exception:
             return None
 
